@@ -31,4 +31,8 @@ def run(ctx):
     # unchecked builds of fault-free programs must behave identically (no faults feature here)
     units2 = program_units(rng, 30 if q else 300, ALL, ws, cfgs_per=2, seed_base=ctx.seed + 103, unchecked=True)
     diff_sweep(ctx, 'sequential programs, --unchecked', units2)
+    import C15
+    gu = C15.guarded_operand_units(rng, 12 if q else 150, ws)
+    diff_sweep(ctx, 'guarded operations as operands of each other (checked)', gu, extra=halts_extra(ctx), monitor=True)
+    diff_sweep(ctx, 'guarded operations as operands of each other (--unchecked)', [(src, [c._replace(unchecked=True) for c in cfgs]) for src, cfgs in gu])
     ctx.cov['rule'] = sweeps.RULE
